@@ -121,11 +121,44 @@ def limit_mem(gb):
     return f
 
 
+LOOP_RE = re.compile(r"^Loop (\S+):\n\s+file (\S+) line (\d+) column \d+ function (.*)$", re.M)
+
+
+def resolve_unwindset(h, tdir):
+    """Per-loop bounds: h['unwindset'] = [(function-regex, loop-index-or-None, bound), ...] is resolved
+    against the loops of the harness' goto binary (`cbmc --show-loops`), so that mangled names
+    never appear in the registry.  Unwinding assertions stay on for every loop."""
+    specs = h.get("unwindset")
+    if not specs:
+        return []
+    short = h["fqn"].split("::")[-1]
+    cands = []
+    for root, _d, files in os.walk(os.path.join(tdir, "kani")):
+        for f in files:
+            if f.endswith(".out") and not f.endswith(".symtab.out") and re.search(r"\d+%s\.out$" % re.escape(short), f):
+                cands.append(os.path.join(root, f))
+    if not cands:
+        raise RuntimeError("goto binary for %s not found" % short)
+    out = subprocess.run(["cbmc", "--show-loops", cands[0]], stdout=subprocess.PIPE, stderr=subprocess.DEVNULL).stdout.decode(errors="replace")
+    loops = [(m.group(1), m.group(4)) for m in LOOP_RE.finditer(out)]
+    sel = []
+    for (fre, idx, bound) in specs:
+        hit = False
+        for name, pretty in loops:
+            if re.search(fre, pretty) and (idx is None or name.endswith(".%d" % idx)):
+                sel.append("%s:%d" % (name, bound))
+                hit = True
+        if not hit:
+            raise RuntimeError("unwindset: no loop matches %r in %s" % (fre, short))
+    h["_unwindset_resolved"] = sel
+    return ["--unwindset", ",".join(sel)]
+
+
 def kani_cmd(prop, h, tdir, extra=()):
     cmd = ["cargo", "kani", "-p", prop["crate"], "-Z", "stubbing", "-Z", "unstable-options"]
     cmd += ["--harness", h["fqn"], "--exact", "--target-dir", tdir]
     cmd += list(extra)
-    cb = list(h.get("cbmc_args", []))
+    cb = list(h.get("cbmc_args", [])) + resolve_unwindset(h, tdir) + os.environ.get("VERIF_CBMC_ARGS", "").split()
     if h.get("fs"):
         cb += ["--max-field-sensitivity-array-size", str(h["fs"])]
     if cb:
@@ -170,25 +203,53 @@ def classify(h, c):
 
 
 class MemBudget:
-    """admit harness processes while the sum of their memory caps fits the machine"""
+    """admit harness processes while the sum of their memory caps fits the machine.
+    Cross-process (several ./check runs may be active): reservations are files
+    <root>/budget/<pid>.<n> holding the GB reserved; stale ones (dead pid) are ignored."""
 
     def __init__(self, total):
         self.total = total
-        self.used = 0.0
-        self.cv = threading.Condition()
+        self.dir = os.path.join(P.SCRATCH_ROOT, "budget")
+        os.makedirs(self.dir, exist_ok=True)
+        self.n = 0
+        self.lock = threading.Lock()
+
+    def _used(self):
+        used = 0.0
+        for f in os.listdir(self.dir):
+            if f == "lock":
+                continue
+            try:
+                pid = int(f.split(".")[0])
+                os.kill(pid, 0)
+                used += float(open(os.path.join(self.dir, f)).read() or 0)
+            except (ValueError, OSError):
+                try:
+                    os.unlink(os.path.join(self.dir, f))
+                except OSError:
+                    pass
+        return used
 
     def acquire(self, gb):
+        import fcntl
         gb = min(gb, self.total)
-        with self.cv:
-            while self.used + gb > self.total + 1e-9:
-                self.cv.wait()
-            self.used += gb
-        return gb
+        while True:
+            with self.lock:
+                with open(os.path.join(self.dir, "lock"), "w") as lf:
+                    fcntl.flock(lf, fcntl.LOCK_EX)
+                    if self._used() + gb <= self.total + 1e-9:
+                        self.n += 1
+                        tok = os.path.join(self.dir, "%d.%d" % (os.getpid(), self.n))
+                        with open(tok, "w") as f:
+                            f.write(str(gb))
+                        return tok
+            time.sleep(2)
 
-    def release(self, gb):
-        with self.cv:
-            self.used -= gb
-            self.cv.notify_all()
+    def release(self, tok):
+        try:
+            os.unlink(tok)
+        except OSError:
+            pass
 
 
 BUDGET = MemBudget(float(os.environ.get("VERIF_MEM_GB", "52")))
@@ -210,7 +271,12 @@ def run_harness_(prop, h, repo, scratch, tier_caps, idx):
     jf = os.path.join(scratch, "logs", h["name"] + ".json")
     timeout = h.get("timeout", tier_caps["timeout"])
     mem = h.get("mem", tier_caps["mem"])
-    cmd = kani_cmd(prop, h, tdir, ["--export-json", jf])
+    try:
+        cmd = kani_cmd(prop, h, tdir, ["--export-json", jf])
+    except RuntimeError as e:
+        shutil.rmtree(tdir, ignore_errors=True)
+        return dict(name=h["name"], fqn=h["fqn"], wall_s=0.0, rc=-1, timeout=False, bounds=h.get("bounds", ""), fs=h.get("fs"),
+                    checks=[], verdict_line=None, stats={}, stubs=[], oom=False, maxrss_gb=None, error=str(e))
     rc, to, wall = run_proc(cmd, repo, logf, timeout, mem)
     text = open(logf, errors="replace").read()
     res = dict(name=h["name"], fqn=h["fqn"], wall_s=round(wall, 1), rc=rc, timeout=to, bounds=h.get("bounds", ""), fs=h.get("fs"))
@@ -243,7 +309,7 @@ def evaluate(h, res):
     if res["timeout"]:
         return "inconclusive", [], ["timeout after %ss" % res["wall_s"]], counts
     if res["verdict_line"] is None or not res["checks"]:
-        return "inconclusive", [], ["no verification verdict (rc=%s; compile error, OOM or crash)" % res["rc"]], counts
+        return "inconclusive", [], [res.get("error") or "no verification verdict (rc=%s; compile error, OOM or crash)" % res["rc"]], counts
     reach_ok = 0
     incon = False
     if res.get("oom") or any(c["status"] == "ERROR" for c in res["checks"]):
@@ -316,10 +382,14 @@ def gen_playback(prop, h, repo, scratch, idx, tier_caps):
     run_proc(cmd, repo, logf, h.get("timeout", tier_caps["timeout"]) * 2, h.get("mem", tier_caps["mem"]))
     text = open(logf, errors="replace").read()
     shutil.rmtree(tdir, ignore_errors=True)
-    return [(tn, code, kind, desc) for (kind, desc, tn, code) in parse_playback(text) if kind != "cover"]
+    if os.environ.get("VERIF_KEEP_LOGS"):
+        d = os.path.join(VERIF, "logs", prop["id"])
+        os.makedirs(d, exist_ok=True)
+        shutil.copyfile(logf, os.path.join(d, h["name"] + ".playback.log"))
+    return [(tn, code, kind, desc) for (kind, desc, tn, code) in parse_playback(text)]
 
 
-def run_native(prop, hfile, code, testname, want_desc, scratch_parent=None):
+def run_native(prop, hfile, code, testname, want_desc, scratch_parent=None, exact=True):
     """execute a playback test natively against the unstubbed real code.
     -> (reproduced: bool, detail: str)"""
     scratch = tempfile.mkdtemp(prefix="des-verif-replay-", dir=scratch_parent or P.SCRATCH_ROOT)
@@ -342,7 +412,9 @@ def run_native(prop, hfile, code, testname, want_desc, scratch_parent=None):
             return True, "native panic: " + "; ".join(m.strip() for m in msgs)[:400]
         if re.search(r"signal: \d+|SIG(SEGV|ABRT|BUS|ILL)|double free|corrupt", out):
             return True, "native process aborted: " + out[-400:]
-        return True, "native test failed with a different message: " + "; ".join(m.strip() for m in msgs)[:400]
+        if exact:
+            return True, "native test failed with a different message: " + "; ".join(m.strip() for m in msgs)[:400]
+        return False, "native test failed, but not at the reported check: " + "; ".join(m.strip() for m in msgs)[:400]
     except subprocess.TimeoutExpired:
         return False, "native replay timed out"
     finally:
@@ -494,9 +566,13 @@ def main():
             detail = "no concrete playback test generated"
             for c in new_fails:
                 # prefer the test generated for exactly this check
-                cand = [t for t in tests if t[3] == c["desc"]] or tests
-                for (tn, code, _kind, _desc) in cand[:3]:
-                    ok, detail = run_native(prop, hfile, code, tn, c["desc"], scratch)
+                # (a failing `assert!(false)` sentinel gets no test of its own: fall back to the tests of
+                #  the reachability covers on the same path and require the native panic message to match)
+                exact = [t for t in tests if t[3] == c["desc"] and t[2] != "cover"]
+                others = [t for t in tests if t not in exact]
+                others.sort(key=lambda t: t[2] == "cover" and t[3].startswith("REACH end"))
+                for (tn, code, _kind, _desc) in (exact + others)[:6]:
+                    ok, detail = run_native(prop, hfile, code, tn, c["desc"], scratch, exact=bool(exact) and (tn, code, _kind, _desc) in exact)
                     if ok:
                         confirmed = (c, tn, code, detail)
                         break
@@ -569,7 +645,7 @@ def write_evidence(pid, tier, seed, prop, results, wall, nviol, known, mounted, 
         stubs.update(r.get("stubs", []))
         samples.append(dict(
             harness=r["fqn"], status=r["status"], bounds=r["bounds"], wall_s=r["wall_s"],
-            field_sensitivity=r.get("fs") or 64, peak_rss_gb=r.get("maxrss_gb"),
+            field_sensitivity=r.get("fs") or 64, peak_rss_gb=r.get("maxrss_gb"), unwindset=h.get("unwindset"),
             checks=r.get("counts"), reach_covers_satisfied=r.get("reach_ok"),
             symex_s=st.get("runtime_symex_s"), solver_s=st.get("runtime_decision_procedure_s"),
             program_steps=st.get("size_program_expression"), vccs=st.get("vccs_generated"),
